@@ -89,9 +89,7 @@ CFG = {
     "streams": [
         {"mod": "core", "component": "ratecodec", "driver": "rate", "n": {"quick": 20000, "thorough": 400000}},
         {"mod": "core", "component": "ratehs", "driver": "rate", "n": {"quick": 180, "thorough": 6200}, "timeout": 1500},
-        # TEMPORARILY DISABLED (integration): the ratecfg stream's oracle flags StringToBps' overflow wrap, which is
-        # outside C10's statement; the stream returns once the model/oracle follow the code as it is.
-        # {"mod": "app", "component": "ratecfg", "driver": "rate", "n": {"quick": 15000, "thorough": 400000}},
+        {"mod": "app", "component": "ratecfg", "driver": "rate", "n": {"quick": 15000, "thorough": 400000}},
     ],
     "rule": "ratecodec: every boundary uint64 and ~130 junk header values (missing, empty, signed, blank-padded, hex/exp/underscore forms, "
             "non-ASCII digits, 'auto' near-misses, values around 2^64 and around strconv's cutoff, 200-digit strings, multi-valued) through "
